@@ -200,8 +200,9 @@ def reservoir_blocks(draw, models=('4', '3'), slow_fraction=0.0, max_steps=2000)
         tspy = draw(st.integers(1, 3))
     else:
         tspy = draw(st.one_of(st.integers(1, 12), st.integers(1, 100)))
-        while life * tspy > max_steps:
+        while life * tspy > max_steps and tspy > 1:
             tspy = max(1, tspy // 2)
+        life = min(life, max_steps)
     blk = merge(blk, [['Plant Lifetime', str(life)], ['Time steps per year', str(tspy)]])
     # resource
     blk = merge(blk, [['Gradient 1', fmt(draw(nice_floats(25, 90)))],
@@ -217,3 +218,195 @@ def reservoir_blocks(draw, models=('4', '3'), slow_fraction=0.0, max_steps=2000)
     blk = merge(blk, [['Number of Production Wells', str(draw(st.integers(1, 6)))],
                       ['Number of Injection Wells', str(draw(st.integers(1, 6)))]])
     return f'res{m}', blk
+
+
+# --------------------------------------------------------------------------- layers (each returns (labels, block))
+
+_COMPONENT_COSTS = [
+    ('Reservoir Stimulation Capital Cost', 0, 60), ('Exploration Capital Cost', 0, 40),
+    ('Well Drilling and Completion Capital Cost', 0.5, 40), ('Injection Well Drilling and Completion Capital Cost', 0.5, 40),
+    ('Surface Plant Capital Cost', 0, 300), ('Field Gathering System Capital Cost', 0, 40),
+    ('Wellfield O&M Cost', 0, 10), ('Surface Plant O&M Cost', 0, 10), ('Water Cost', 0, 5),
+]
+_ADJ_FACTORS = [
+    'Reservoir Stimulation Capital Cost Adjustment Factor', 'Exploration Capital Cost Adjustment Factor',
+    'Well Drilling and Completion Capital Cost Adjustment Factor',
+    'Injection Well Drilling and Completion Capital Cost Adjustment Factor', 'Wellfield O&M Cost Adjustment Factor',
+    'Surface Plant Capital Cost Adjustment Factor', 'Field Gathering System Capital Cost Adjustment Factor',
+    'Surface Plant O&M Cost Adjustment Factor', 'Water Cost Adjustment Factor',
+]
+
+
+@st.composite
+def cost_layer(draw, surface_label=''):
+    labels, blk = [], []
+    n_fixed = 0
+    for name, lo, hi in _COMPONENT_COSTS:
+        if draw(st.integers(0, 4)) == 0:
+            blk.append([name, fmt(draw(nice_floats(lo, hi)))])
+            n_fixed += 1
+    if n_fixed:
+        labels.append('fixed_component')
+    n_adj = 0
+    for name in _ADJ_FACTORS:
+        if draw(st.integers(0, 5)) == 0:
+            blk.append([name, fmt(draw(nice_floats(0, 10)))])
+            n_adj += 1
+    if n_adj:
+        labels.append('adj_factor')
+    if draw(st.integers(0, 7)) == 0:
+        blk.append(['Total Capital Cost', fmt(draw(nice_floats(1, 500)))])
+        labels.append('total_capex_given')
+    if draw(st.integers(0, 7)) == 0:
+        blk.append(['Total O&M Cost', fmt(draw(nice_floats(0.1, 30)))])
+        labels.append('total_opex_given')
+    if draw(st.integers(0, 3)) == 0:
+        blk.append(['Investment Tax Credit Rate', fmt(draw(nice_floats(0.0, 0.6)))])
+        labels.append('itc')
+    for name, lo, hi, lab in [('One-time Grants Etc', 0, 20, 'grant'), ('Other Incentives', 0, 10, 'incentive'),
+                              ('One-time Flat License Fees Etc', 0, 10, 'flatfee'),
+                              ('Annual License Fees Etc', 0, 2, 'annualfee'), ('Tax Relief Per Year', 0, 2, 'taxrelief')]:
+        if draw(st.integers(0, 4)) == 0:
+            blk.append([name, fmt(draw(nice_floats(lo, hi)))])
+            labels.append(lab)
+    if draw(st.integers(0, 3)) == 0:
+        blk.append(['Well Drilling Cost Correlation', str(draw(st.integers(1, 17)))])
+    if draw(st.integers(0, 5)) == 0:
+        blk.append(['Surface Piping Length', fmt(draw(nice_floats(0, 50)))])
+        labels.append('piping')
+    if draw(st.integers(0, 6)) == 0:
+        blk.append(['Number of Multilateral Sections', str(draw(st.integers(1, 8)))])
+        blk.append(['Nonvertical Length per Multilateral Section', fmt(draw(nice_floats(100, 3000)))])
+        if draw(st.booleans()):
+            blk.append(['Multilaterals Cased', draw(st.sampled_from(['True', 'False']))])
+        labels.append('laterals')
+    if draw(st.integers(0, 5)) == 0:
+        blk.append(['Inflation Rate During Construction', fmt(draw(nice_floats(0, 0.3)))])
+        labels.append('infl_constr')
+    if surface_label == 'chiller':
+        if draw(st.booleans()):
+            blk.append(['Absorption Chiller Capital Cost', fmt(draw(nice_floats(0, 50)))])
+        if draw(st.booleans()):
+            blk.append(['Absorption Chiller O&M Cost', fmt(draw(nice_floats(0, 5)))])
+    if surface_label == 'heatpump' and draw(st.booleans()):
+        blk.append(['Heat Pump Capital Cost', fmt(draw(nice_floats(0, 50)))])
+    if surface_label == 'district':
+        k = draw(st.integers(0, 4))
+        if k == 0:
+            blk.append(['Total District Heating Network Cost', fmt(draw(nice_floats(0, 100)))])
+        elif k == 1:
+            blk.append(['District Heating Network Piping Length', fmt(draw(nice_floats(0.5, 100)))])
+        elif k == 2:
+            blk.append(['District Heating Population', fmt(draw(nice_floats(100, 200000)))])
+            blk.append(['District Heating Land Area', fmt(draw(nice_floats(1, 200)))])
+        if draw(st.integers(0, 2)) == 0:
+            blk.append(['District Heating O&M Cost', fmt(draw(nice_floats(0, 5)))])
+    if surface_label.startswith('cogen') and draw(st.integers(0, 3)) == 0:
+        blk.append(['CHP Electrical Plant Cost Allocation Ratio', fmt(draw(nice_floats(0.05, 0.95)))])
+        labels.append('chp_ratio_given')
+    return labels, blk
+
+
+@st.composite
+def price_layer(draw):
+    labels, blk = [], []
+    cy = draw(st.one_of(st.just(1), st.integers(1, 5), st.integers(1, 14)))
+    if cy != 1:
+        blk.append(['Construction Years', str(cy)])
+        labels.append('construction>1')
+    for prod, lo, hi in [('Electricity', 0.01, 0.4), ('Heat', 0.005, 0.2), ('Cooling', 0.005, 0.2)]:
+        if draw(st.integers(0, 2)) == 0:
+            s0 = draw(nice_floats(lo, hi))
+            e0 = draw(st.one_of(nice_floats(lo, hi * 2), st.just(s0)))
+            blk += [[f'Starting {prod} Sale Price', fmt(s0)], [f'Ending {prod} Sale Price', fmt(e0)],
+                    [f'{prod} Escalation Start Year', str(draw(st.one_of(st.integers(0, 10), st.integers(0, 100))))],
+                    [f'{prod} Escalation Rate Per Year', fmt(draw(nice_floats(0, hi / 5)))]]
+            labels.append('price_escalation')
+    if draw(st.integers(0, 3)) == 0:
+        blk += [['Do Carbon Price Calculations', 'True'],
+                ['Starting Carbon Credit Value', fmt(draw(nice_floats(0, 0.1)))],
+                ['Ending Carbon Credit Value', fmt(draw(nice_floats(0, 0.3)))],
+                ['Carbon Escalation Start Year', str(draw(st.integers(0, 20)))],
+                ['Carbon Escalation Rate Per Year', fmt(draw(nice_floats(0, 0.02)))]]
+        labels.append('carbon')
+    if draw(st.integers(0, 3)) == 0:
+        blk.append(['Production Tax Credit Electricity', fmt(draw(nice_floats(0.001, 0.2)))])
+        if draw(st.booleans()):
+            blk.append(['Production Tax Credit Duration', str(draw(st.integers(0, 40)))])
+        if draw(st.booleans()):
+            blk.append(['Production Tax Credit Inflation Adjusted', 'True'])
+            blk.append(['Inflation Rate', fmt(draw(nice_floats(0, 0.1)))])
+        labels.append('ptc_elec')
+    if draw(st.integers(0, 6)) == 0:
+        blk.append(['Production Tax Credit Heat', fmt(draw(nice_floats(0.1, 10)))])
+        labels.append('ptc_heat')
+    if draw(st.integers(0, 3)) == 0:
+        blk.append(['Fixed Internal Rate', fmt(draw(nice_floats(0.1, 30)))])
+    if draw(st.integers(0, 3)) == 0:
+        blk.append(['Discount Initial Year Cashflow', 'True'])
+        labels.append('npv_excel_convention')
+    return labels, blk
+
+
+@st.composite
+def addon_layer(draw):
+    n = draw(st.integers(1, 3))
+    blk = [['Do AddOn Calculations', 'True']]
+    for i in range(1, n + 1):
+        blk += [[f'AddOn Nickname {i}', f'addon{i}'], [f'AddOn CAPEX {i}', fmt(draw(nice_floats(0, 60)))],
+                [f'AddOn OPEX {i}', fmt(draw(nice_floats(0, 3)))],
+                [f'AddOn Electricity Gained {i}', fmt(draw(st.one_of(st.just(0.0), nice_floats(0, 30000))))],
+                [f'AddOn Heat Gained {i}', fmt(draw(st.one_of(st.just(0.0), nice_floats(0, 30000))))],
+                [f'AddOn Profit Gained {i}', fmt(draw(nice_floats(0, 5)))]]
+    return [f'addons{n}'], blk
+
+
+@st.composite
+def configs(draw, reservoirs=('4', '3'), slow_fraction=0.0, max_steps=2000, addons=0.0, examples=0.15,
+            costs=True, prices=True, sdac=0.0):
+    """full synthetic or example-seeded configuration -> case dict"""
+    if examples and draw(st.floats(0, 1)) < examples:
+        from . import sim
+        ex = draw(st.sampled_from(FAST_EXAMPLES))
+        params = merge(sim.load_example_params(ex), [['Print Output to Console', '0']])
+        labels = ['example-seeded']
+        pdx = dict((n, v) for n, v in params)
+        if pdx.get('Reservoir Model') in ('1', '2') or pdx.get('Power Plant Type') == '7':
+            # the inverse-Laplace models and district heating cost seconds per run at the examples' resolution
+            params = merge(params, [['Time steps per year', str(draw(st.integers(1, 2)))],
+                                    ['Plant Lifetime', str(draw(st.integers(2, 15)))]])
+        if costs and draw(st.booleans()):
+            l2, b2 = draw(cost_layer())
+            params = merge(params, b2)
+            labels += l2
+        if prices and draw(st.booleans()):
+            l2, b2 = draw(price_layer())
+            params = merge(params, b2)
+            labels += l2
+        return {'family': f'example:{ex}', 'params': params, 'labels': labels}
+    sl, sb = draw(surface_blocks())
+    rl, rb = draw(reservoir_blocks(models=reservoirs, slow_fraction=slow_fraction,
+                                   max_steps=60 if sl == 'district' else max_steps))
+    el, eb = draw(econ_blocks())
+    params = merge(rb, sb, eb)
+    labels = [rl, sl.split('-')[0], sl, el]
+    if draw(st.booleans()):
+        params = merge(params, [['Utilization Factor', fmt(draw(nice_floats(0.3, 1)))],
+                                ['End-Use Efficiency Factor', fmt(draw(nice_floats(0.3, 1)))],
+                                ['Circulation Pump Efficiency', fmt(draw(nice_floats(0.3, 1)))]])
+    if costs:
+        l2, b2 = draw(cost_layer(surface_label=sl))
+        params = merge(params, b2)
+        labels += l2
+    if prices:
+        l2, b2 = draw(price_layer())
+        params = merge(params, b2)
+        labels += l2
+    if addons and draw(st.floats(0, 1)) < addons:
+        l2, b2 = draw(addon_layer())
+        params = merge(params, b2)
+        labels += l2
+    if sdac and draw(st.floats(0, 1)) < sdac:
+        params = merge(params, SDAC)
+        labels.append('sdac')
+    return {'family': '-'.join([rl, sl, el]), 'params': params, 'labels': labels}
